@@ -706,6 +706,8 @@ func readAllBounded(r io.Reader) ([]byte, error) {
 // readers open per goroutine (objects then travel between goroutines through the pools' shared lists); every
 // stream must decode to its own payload.
 func stress(r *rand.Rand, cs []codecCase, G, iters int) {
+	// wall-clock budget per codec value: on a loaded machine fewer iterations are run instead of timing out
+	const budget = 3 * time.Second
 	for _, cc := range cs {
 		ps := make([][]byte, 4)
 		streams := make([][]byte, 4)
@@ -717,12 +719,13 @@ func stress(r *rand.Rand, cs []codecCase, G, iters int) {
 		var mu sync.Mutex
 		first := "none"
 		bad := 0
+		deadline := time.Now().Add(budget)
 		for g := 0; g < G; g++ {
 			wg.Add(1)
 			go func(g int) {
 				defer wg.Done()
 				res := guard(func() string {
-					for it := 0; it < iters; it++ {
+					for it := 0; it < iters && (it < 3 || time.Now().Before(deadline)); it++ {
 						// several readers open at once per goroutine, closed in a different order
 						i, j := (g+it)%4, (g+2*it+1)%4
 						r1 := cc.codec.NewReader(bytes.NewReader(streams[i]))
@@ -781,7 +784,7 @@ func main() {
 	stressOnly := len(os.Args) > 1 && os.Args[1] == "stress"
 	if stressOnly {
 		// watchdog: whatever hangs, report what was observed so far
-		time.AfterFunc(45*time.Second, func() {
+		time.AfterFunc(60*time.Second, func() {
 			emit("stress watchdog 0", "timeout")
 			out.Flush()
 			os.Exit(3)
